@@ -1,11 +1,14 @@
 """C02 - Best match equals the optimum of a full scan (index is transparent).
 
-Structural clauses decided (DESIGN.md §5 C02):
- R1 wildcard key expansion constructs every concrete variant of the key enum
+Structural clauses decided:
+ R1 wildcard key expansion constructs every concrete variant of the key enum; with several wildcard-bearing key fields the
+    stored keys are the cartesian product of the expansions (nested plain iterations, no zip/cycle/take)
  R2 key fields read the same (decisive) field on the observation and the signature side
  R3 the string key is computed by the same recipe on both sides
- R4 strict-< running minimum over forward iteration; index built append-only in (label, sig) order
- R5 reported quality is computed from the running minimum
+ R4 strict-< running minimum over forward iteration; index built append-only in (label, sig) order with positions counted
+    directly over `entries` (no filter/skip between iter() and enumerate())
+ R5 reported quality is computed from the running minimum, through the score table of the signature's own protocol in
+    every impl of DatabaseSignature
  R6 None is returned exactly when no candidate was accepted
 """
 from ..engine import cfg as C
